@@ -50,7 +50,7 @@ def exh_cases(ck, depth):
     return split_cases(p.stdout)
 
 
-MUTATING = ("free", "fchildren", "unlink", "steal", "reparent", "realloc", "ref", "limit")
+MUTATING = ("free", "fchildren", "unlink", "steal", "move", "reparent", "realloc", "ref", "limit")
 
 
 def nontrivial(c):
@@ -135,7 +135,8 @@ def run(ck):
     ck.cov["rule"] = (
         "case = one history (#case-separated) of 1-60 talloc calls over <= 12 user objects produced by the "
         "model-guided generator (live arguments, references/steals only where the holder graph stays acyclic; "
-        "op mix biased to reference x reparent x realloc x refusing destructor; sizes from {0,1,7,8,9,16,24,100,"
+        "op mix biased to reference x reparent x realloc x refusing destructor; talloc_move with the caller's variable "
+        "read back after the call; sizes from {0,1,7,8,9,16,24,100,"
         "4095,4096,TALLOC_MAXLEN-1,TALLOC_MAXLEN,TALLOC_MAXLEN+1,..}; default cx and talloc_from_cx roots; with and "
         "without null tracking; injected allocator failures), plus ALL sequences of N ops from a 16-op-per-object "
         "alphabet after each of 8 allocation shapes of 3 objects (N=2 quick, N=3 thorough); a quarter of the random "
